@@ -316,6 +316,17 @@ class Env:
         self.module = module
         self.parent = parent
         self.cls = cls
+        self.nonlocals: set = set()
+
+    def owner(self, name: str) -> 'Env':
+        """Environment that holds `name` for assignment (nonlocal declarations)."""
+        if name in self.nonlocals:
+            e = self.parent
+            while e is not None:
+                if name in e.vars:
+                    return e
+                e = e.parent
+        return self
 
     def lookup(self, name: str):
         e: Optional[Env] = self
@@ -522,8 +533,10 @@ class Interp:
                             raise Raised(ExcVal(type(ex).__name__))
                     else:
                         raise Unsupported('del on abstract container')
-        elif isinstance(st, (ast.Global, ast.Nonlocal)):
-            raise Unsupported('global/nonlocal')
+        elif isinstance(st, ast.Nonlocal):
+            env.nonlocals.update(st.names)
+        elif isinstance(st, ast.Global):
+            raise Unsupported('global')
         else:
             raise Unsupported(f'statement {type(st).__name__} at {self._loc(st, env)}')
 
@@ -683,7 +696,7 @@ class Interp:
     # ---------------------------------------------------------------- assignment
     def assign(self, target: ast.AST, value: Any, env: Env) -> None:
         if isinstance(target, ast.Name):
-            env.vars[target.id] = value
+            env.owner(target.id).vars[target.id] = value
         elif isinstance(target, (ast.Tuple, ast.List)):
             vals = self.unpack(value, len(target.elts), target)
             star = [i for i, t in enumerate(target.elts) if isinstance(t, ast.Starred)]
@@ -1302,7 +1315,9 @@ class Interp:
         else:
             fnode = fr.lam
             mod = fr.module
-            qual = '<lambda>'
+            qual = '<local>.' + getattr(fnode, 'name', '<lambda>')
+            if isinstance(fnode, ast.FunctionDef) and (qual in self.call_stack or self.depth >= self.max_depth + 4):
+                return self.opaque_call(qual, list(args), kwargs)
         env = Env(mod, fr.closure, fr.fi.cls if fr.fi else None)
         a = ([fr.self_val] if fr.bound else []) + list(args)
         self.bind_params(fnode.args, a, kwargs, env, fr)
